@@ -268,6 +268,8 @@ type c16Scen struct {
 	// emptyData: the chain holds logs of the declared event without data; refusing the batch is one legitimate
 	// answer (nothing is stored), storing rows is the other (then the key rules apply to them)
 	emptyData bool
+	// columnless: the declaration names an identity field under block without giving it a column (only a filter)
+	columnless bool
 }
 
 func c16Chain(r *vk.RNG, decls []*model.Decl, abi gen.ABIOpts, emptyData bool) *simnode.Chain {
@@ -805,6 +807,9 @@ func (s *c16Scen) run() {
 			s.violate("existing-table:index-created-before-missing-columns-added", ex, "migration of an existing table with fewer columns fails: the unique index is created before the missing columns are added: %s", firstLines(es, 1))
 		case env.SetupStage == "migrate" && mixed:
 			s.violate("ddl-copy-case-mismatch", ex, "migration fails on mixed-case names: %s", firstLines(es, 1))
+		case s.columnless && env.SetupStage == "validate":
+			// a block field without any column: refusing it is the unchanged answer
+			c.Obs("columnless_identity_field_refused", 1)
 		case env.SetupStage == "migrate" || env.SetupStage == "panic":
 			s.violate("migrate-fails:"+sqlstate(es)+":"+s.kind, ex, "validation accepted the configuration but the migration fails: %s", firstLines(es, 1))
 		default:
@@ -896,6 +901,14 @@ func c16Run(c *vk.Case) {
 			decls = append(decls, c16Decl(r, k, namePoolTbl[0], srcs[:1], o))
 		}
 		vk.Shuffle(r, decls)
+		if r.Bool() {
+			// an integration with a table of its own between the sharers (they are no longer adjacent in the file)
+			o := mkOpts()
+			o.userUniq, o.identity = false, "no-renamed-binding"
+			own := c16Decl(r, 3, namePoolTbl[3], srcs[:1], o)
+			decls = append(decls[:1], append([]*model.Decl{own}, decls[1:]...)...)
+			c.Obs("shared_table_scenarios_with_table_in_between", 1)
+		}
 		c.Obs("shared_table_scenarios", 1)
 	default:
 		decls = []*model.Decl{c16Decl(r, 0, namePoolTbl[0], srcs, mkOpts())}
@@ -908,10 +921,25 @@ func c16Run(c *vk.Case) {
 			}
 		}
 	}
+	columnless := kind == "single" && c.Index%32 == 25
+	if columnless {
+		// an identity field listed under block with a filter and no column: if the configuration is accepted at all,
+		// the rows still have to be told apart by that field
+		d := decls[0]
+		name := vk.Pick(r, []string{"block_num", "tx_idx"})
+		keep := d.Block[:0:0]
+		for _, b := range d.Block {
+			if b.Name != name {
+				keep = append(keep, b)
+			}
+		}
+		d.Block = append(keep, model.BlockField{Name: name, Column: "", ColType: "numeric", Filter: model.Filter{Op: "gt", Arg: []string{"0"}}})
+		c.Obs("columnless_identity_field_scenarios", 1)
+	}
 	emptyData := kind == "single" && c.Index%16 == 9 && decls[0].Mode() == model.ModeLog && len(refmodel.SelectedLeaves(decls[0].Inputs)) > 0
 	chain := c16Chain(r, decls, c16ABI, emptyData)
 	spec := c16Spec(r, decls, srcs, chain)
-	sc := &c16Scen{c: c, kind: kind, decls: decls, spec: spec, chain: chain, shared: kind == "shared", emptyData: emptyData}
+	sc := &c16Scen{c: c, kind: kind, decls: decls, spec: spec, chain: chain, shared: kind == "shared", emptyData: emptyData, columnless: columnless}
 	if emptyData {
 		c.Obs("empty_data_log_scenarios", 1)
 	}
